@@ -104,7 +104,8 @@ def _case(draw: Any, args: dict) -> dict:
         return gt.module(path, ds, doc=f"Unrelated module {variant}.")
 
     generic_tail = draw(st.booleans())  # the unrelated modules end with a function over a type variable
-    u_path = [pk, "b", draw(st.sampled_from(["things", "target", "helper"]))]
+    # (a sub-package as deep as the target module: its __init__ is then at least as deep as the declarations it could capture)
+    u_path = [pk, "b", "deep", draw(st.sampled_from(["things", "target", "target", "helper"]))]
     u = unrelated(u_path, collide, 0)
     base_mods = [helper, target, alpha(False)]
     # the unrelated package re-exports its own declarations through relative imports (its private base under a public alias)
@@ -118,7 +119,7 @@ def _case(draw: Any, args: dict) -> dict:
         own_names = [n for n in own_names if n.startswith("_") or overlap_ok or n not in target_names]
         stmts = [["from", "." + u_path[-1], n, ("PubU" + n.strip("_")) if n.startswith("_") else None] for n in own_names if n.startswith("_") or draw(st.booleans())]
         if stmts:
-            inits_u[f"{pk}/b"] = stmts
+            inits_u[f"{pk}/b/deep"] = stmts
     variants: list[dict] = []
     variants.append({"name": "U removed", "modules": base_mods, "inits": inits})
     variants.append({"name": "U renamed", "modules": [*base_mods, {**copy.deepcopy(u), "path": [pk, "b", "renamed_mod"]}], "inits": inits})
@@ -180,7 +181,7 @@ def judge(case: dict) -> dict:
     # declares or references too is taken from the unrelated package (re-exports are matched by name)
     helper_names = {d["name"] for m in case["base"]["modules"] if m["path"][-2:] == ["a", "helper"] for d in m["decls"]}
     target_names = {d["name"] for d in tmod["decls"]} | helper_names
-    overlap = {st_[2] for st_ in case["base"]["inits"].get(f"{pk}/b", []) if not st_[2].startswith("_")} & target_names
+    overlap = {st_[2] for key, stmts_ in case["base"]["inits"].items() if key.startswith(f"{pk}/b") for st_ in stmts_ if not st_[2].startswith("_")} & target_names
 
     def otags(a_text: str, b_text: str) -> list[str]:
         if not overlap:
